@@ -39,7 +39,7 @@ func universeModel() *openfgav1.AuthorizationModel {
 		return &openfgav1.Condition{Name: name, Expression: "x < 100", Parameters: map[string]*openfgav1.ConditionParamTypeRef{"x": {TypeName: openfgav1.ConditionParamTypeRef_TYPE_NAME_INT}}}
 	}
 	return &openfgav1.AuthorizationModel{SchemaVersion: "1.1",
-		TypeDefinitions: []*openfgav1.TypeDefinition{{Type: "user"}, typ("doc"), typ("group")},
+		TypeDefinitions: []*openfgav1.TypeDefinition{{Type: "user"}, typ("doc"), typ("group"), typ("docs")},
 		Conditions:      map[string]*openfgav1.Condition{"c1": cond("c1"), "c2": cond("c2")}}
 }
 
